@@ -41,7 +41,13 @@ def load_registry():
         ns: dict = {}
         with open(nm, encoding="utf-8") as f:
             exec(compile(f.read(), nm, "exec"), ns)  # noqa: S102
-        reg.native_env.update({k: v for k, v in ns.items() if not k.startswith("__")})
+        for k, v in ns.items():
+            if k.startswith("__"):
+                continue
+            if k in ("EXHAUSTIVE", "BUILDERS") and isinstance(v, dict):
+                reg.native_env.setdefault(k, {}).update(v)  # merged across helper modules
+            else:
+                reg.native_env[k] = v
         for hk, hv in ns.get("HOOKS", {}).items():
             reg.hooks[hk] = hv
     reg.link()
